@@ -775,7 +775,7 @@ class EventSource(object):
                     if self.dictable:
                         try:
                             ejson = json.loads(edata, object_pairs_hook=dict)
-                        except ValueError as ex:
+                        except (ValueError, RecursionError) as ex:  # not json or nested too deep
                             ejson = None
                         else:  # valid json set edata to ejson
                             edata = ejson
